@@ -1,5 +1,6 @@
 import Driver.Eio
 import Driver.Batcher
+import Driver.Store
 /-
   Line-protocol driver: one request per line on stdin, one canonical answer per line on stdout.
   The same request lines are executed by the Go harness against the real implementation.
@@ -12,6 +13,7 @@ def step (line : String) : String :=
   | "eio" :: rest => eioLine rest
   | "wt" :: rest => wtLine rest
   | "bat" :: rest => batLine rest
+  | "hs" :: rest => hsLine rest
   | _ => "bad-op"
 
 partial def loop (h : IO.FS.Stream) (out : IO.FS.Stream) : IO Unit := do
